@@ -44,19 +44,25 @@ try:
     run_demo = demo_cmd if not moddir else demo_cmd
     rc0, out0 = sh(run_demo, cwd=os.path.join(wt, moddir) if moddir and not demo_cmd.strip().startswith(("cd ", "(cd ")) else wt)
     print("[demo without change] rc=%d" % rc0)
+    # existing tests of the touched packages on the UNCHANGED tree first (some need the network and fail offline anyway)
+    def pkgtests(d):
+        md = "estargz" if d.startswith("estargz") else ("cmd" if d.startswith("cmd/") else "")
+        rel = d[len(md):].lstrip("/") if md else d
+        rc, out = sh("go build ./... && go vet ./%s/ && go test -count=1 -timeout 30m ./%s/" % (rel, rel), cwd=os.path.join(wt, md))
+        return rc, out, set(re.findall(r"^\s*--- FAIL: (\S+)", out, re.M))
+    os.rename(demopath, demopath + ".off")
+    base = {d: pkgtests(d) for d in pkgdirs}
     sh("git apply %s" % os.path.join(os.path.abspath(src), "patch.diff"), check=True)
     results = {"demo_without_rc": rc0}
     ok = rc0 == 0
-    # build + existing tests of touched packages (demo file moved away meanwhile)
-    os.rename(demopath, demopath + ".off")
     for d in pkgdirs:
-        md = "estargz" if d.startswith("estargz") else ("cmd" if d.startswith("cmd/") else "")
-        rel = d[len(md):].lstrip("/") if md else d
-        rc, out = sh("go build ./... && go vet ./%s/ && go test -count=1 ./%s/" % (rel, rel), cwd=os.path.join(wt, md))
-        print("[existing tests %s] rc=%d %s" % (d, rc, out.strip().splitlines()[-1] if out.strip() else ""))
-        results["tests_" + d] = rc
-        ok = ok and rc == 0
-        if rc != 0:
+        rc, out, fails = pkgtests(d)
+        brc, bout, bfails = base[d]
+        same = (rc == 0) if brc == 0 else (fails == bfails and "[build failed]" not in out)
+        print("[existing tests %s] rc=%d (unchanged tree rc=%d, failing there: %s) %s" % (d, rc, brc, sorted(bfails), "same" if same else "DIFFERENT"))
+        results["tests_" + d] = {"rc": rc, "unchanged_rc": brc, "same_failures_as_unchanged": same, "failing": sorted(fails)}
+        ok = ok and same
+        if not same:
             print(out[-2000:])
     os.rename(demopath + ".off", demopath)
     rc1, out1 = sh(run_demo, cwd=os.path.join(wt, moddir) if moddir and not demo_cmd.strip().startswith(("cd ", "(cd ")) else wt)
